@@ -2,7 +2,7 @@
   Lungo.Proofs.ConcOwn2 — the `starting` protocol invariant (Sinv) and the ownership invariant
   (Oinv), per sub-machine (generated mechanically).
 -/
-import Lungo.Proofs.ConcOwn
+import Lungo.Proofs.ConcOwnDefs
 namespace Lungo.Conc
 
 set_option maxHeartbeats 1000000 in
